@@ -5,11 +5,15 @@ from sa.rules.common import is_test_or_bench
 
 EXPLANATION = ("Decides every clause of the statement from the MIR of the extern \"C\" functions: each use of a raw-pointer parameter "
                "(reborrow, CStr::from_ptr, slice::from_raw_parts, ptr::add / store, copy_nonoverlapping) is dominated by an is_null "
-               "test on that parameter whose null arm cannot reach the use; the write count of copy_nonoverlapping and the offset of "
-               "the NUL store are the same value min(bytes.len(), buf_cap.saturating_sub(1)), the copy's source is bytes.as_ptr() of "
-               "the same bytes, the destination derives from the output-buffer parameter, a buf_cap == 0 test precedes any write, "
-               "there is no other write through the output pointer, the returned value is that same count, and every early return "
-               "yields a constant zero / negative status. Assumes the caller's pointers are valid for the lengths passed.")
+               "test on that parameter whose null arm cannot reach the use; every write through the output buffer is enumerated "
+               "(stores through the pointer or its ptr::add results, copy/write_bytes counts, ptr::write, slices made by "
+               "from_raw_parts_mut) and its extent is bounded against buf_cap by a three-point abstract interpretation "
+               "(< cap, <= cap, unknown) over ALL definitions of the locals involved — min, saturating_sub, +1, -1 under a non-zero "
+               "guard, copies; a local changed in a loop gets the join — under buf_cap >= 1, which the dominating buf_cap == 0 return "
+               "establishes; any other hand-off of the output pointer is an unrecognised write; the NUL position, the copied count "
+               "and the return value are the same value, not redefined after the first write; the copy's source is the encoded "
+               "response without an offset; every early return yields a constant zero / negative status. "
+               "Assumes the caller's pointers are valid for the lengths passed.")
 
 FFI = "searchlite_ffi"
 DEREF_CALLS = ("core::ffi::c_str::CStr::from_ptr", "core::slice::raw::from_raw_parts", "core::slice::raw::from_raw_parts_mut",
